@@ -29,7 +29,7 @@ func genOptions(t *rapid.T) *Options {
 }
 
 func genCase(t *rapid.T, withInvalid bool) *Case {
-	c := &Case{Init: *genOptions(t)}
+	c := &Case{Init: *genOptions(t), InPlace: rapid.IntRange(0, 2).Draw(t, "inplace") == 0}
 	if rapid.IntRange(0, 2).Draw(t, "withcfg") == 0 {
 		c.MinSize = rapid.IntRange(0, 3).Draw(t, "minSize")
 		c.MaxSize = rapid.SampledFrom([]int{0, 0, 4}).Draw(t, "maxSize")
